@@ -28,7 +28,9 @@ func init() {
 			{Name: "recv-deadline-with-peers-coming-and-going-during-the-wait", Mode: "enum", Bound: b, Reset: kit.ResetGlobals, Body: recvDeadlineEvents,
 				NeedCounters: []string{"recv-timeout-exact-after-connection-events", "carrier-of-the-request-lost-during-the-wait"}},
 			{Name: "send-deadline", Mode: "enum", Bound: b, Reset: kit.ResetGlobals, Body: func() { sendModes("deadline") },
-				NeedCounters: []string{"send-timeout-exact", "send-no-deadline-waits", "send-immediate-ok"}},
+				NeedCounters: []string{"send-timeout-exact", "send-no-deadline-waits", "send-immediate-ok", "send-timeout-exact-again-after-idle"}},
+			{Name: "modes-switched-off-again-during-a-blocked-send", Mode: "enum", Bound: b, Reset: kit.ResetGlobals, Body: modesReapplied,
+				NeedCounters: []string{"blocked-send-undisturbed-by-reapplied-modes", "no-peer-connected-during-the-wait"}},
 			{Name: "send-deadline-ends-with-the-send", Mode: "enum", Bound: b, Reset: kit.ResetGlobals, Body: sendDeadlineScope,
 				NeedCounters: []string{"answer-after-send-deadline-delivered"}},
 			{Name: "send-best-effort", Mode: "enum", Bound: b, Reset: kit.ResetGlobals, Body: func() { sendModes("besteffort") },
@@ -360,6 +362,76 @@ func recvDeadlineEvents() {
 	kit.Must("Close", func() { _ = x.S.Close() })
 }
 
+// modesReapplied: a Send with deadline d (or none) is blocked - nobody is connected, or the only
+// peer takes nothing - when the application applies its configuration again: fail-no-peers off,
+// best effort off (the values they have).  Nothing changes for the blocked Send: it returns the
+// timeout error after exactly d, or keeps waiting.
+func modesReapplied() {
+	var ks []*kinds.Kind
+	for _, k := range kinds.All {
+		if k.CanSend && !k.NeedReq {
+			ks = append(ks, k)
+		}
+	}
+	k := ks[kit.ChooseFree(len(ks))]
+	d := []time.Duration{2 * time.Second, 0}[kit.ChooseFree(2)]
+	withPeer := kit.ChooseFree(2) == 1
+	x := k.Open("c18mr", false, true)
+	x.Quiet()
+	_ = x.S.SetOption(mangos.OptionWriteQLen, 1)
+	if withPeer {
+		x.P = x.EP.Connect()
+		kit.Quiesce()
+	}
+	if d > 0 {
+		if err := x.S.SetOption(mangos.OptionSendDeadline, d); err != nil {
+			return
+		}
+	}
+	c, _ := blockSend(x, "mr")
+	if c == nil {
+		kit.Observe("%s never blocks", k.Name)
+		return
+	}
+	kit.Sleep(500 * time.Millisecond)
+	kit.Quiesce()
+	for _, o := range []string{mangos.OptionFailNoPeers, mangos.OptionBestEffort} {
+		o := o
+		oc := kit.Start("SetOption("+o+",false)", func() (interface{}, error) { return nil, x.S.SetOption(o, false) })
+		kit.Quiesce()
+		if !oc.Done() {
+			kit.Failf("option-call-blocked:"+k.Name, "%s: SetOption(%s,false) did not return while a Send was waiting", k.Name, o)
+		}
+		if c.Done() {
+			kit.Failf("send-ended-by-a-reapplied-mode:"+k.Name, "%s (peer connected: %v): a Send with deadline %v was waiting; SetOption(%s,false) - the value it had - made it return %s after %v", k.Name, withPeer, d, o, kit.ErrName(c.Err), c.T1-c.T0)
+		}
+	}
+	if d > 0 {
+		kit.Sleep(d - 500*time.Millisecond - time.Nanosecond)
+		kit.Quiesce()
+		if c.Done() {
+			kit.Failf("send-deadline-early:"+k.Name, "%s: Send with deadline %v returned %s after only %v", k.Name, d, kit.ErrName(c.Err), c.T1-c.T0)
+		}
+		kit.Sleep(time.Nanosecond)
+		kit.Quiesce()
+		if !c.Done() || c.Err != mangos.ErrSendTimeout || c.T1-c.T0 != d {
+			kit.Failf("send-deadline-result:"+k.Name, "%s: Send with deadline %v: done=%v %s after %v, want ErrSendTimeout after exactly the deadline", k.Name, d, c.Done(), kit.ErrName(c.Err), c.T1-c.T0)
+		}
+	} else {
+		kit.Sleep(time.Hour)
+		kit.Quiesce()
+		if c.Done() {
+			kit.Failf("send-zero-deadline-fired:"+k.Name, "%s: Send with no deadline returned %s after %v", k.Name, kit.ErrName(c.Err), c.T1-c.T0)
+		}
+	}
+	kit.Count("blocked-send-undisturbed-by-reapplied-modes")
+	if !withPeer {
+		kit.Count("no-peer-connected-during-the-wait")
+	}
+	kit.Observe("%s d=%v peer=%v", k.Name, d, withPeer)
+	kit.Must("Close", func() { _ = x.S.Close() })
+}
+
 // blockSend issues sends against a peer that takes nothing until one blocks; the ones
 // that complete must do so at once and without error.  It returns the blocked call (nil if
 // the kind never blocks), and the bodies accepted so far.
@@ -478,6 +550,37 @@ func sendModes(mode string) {
 			kit.Failf("send-deadline-result:"+k.Name, "%s: Send with deadline %v returned %s after %v, want ErrSendTimeout after exactly the deadline", k.Name, d, kit.ErrName(c.Err), c.T1-c.T0)
 		}
 		kit.Count("send-timeout-exact")
+		// and again, after idle periods longer than the deadline: the peer takes everything, nothing
+		// happens for three deadlines, the peer stalls again - sends that can complete do so at once,
+		// the one that blocks times out after exactly d (a deadline belongs to one call)
+		for round := 2; round <= 3; round++ {
+			x.P.Hold(false)
+			kit.Quiesce()
+			x.PrepSend()
+			wc := kit.Start("Send:warm", func() (interface{}, error) { return nil, x.Send(fmt.Sprintf("warm-%d", round)) })
+			kit.Quiesce()
+			if !wc.Done() || wc.Err != nil || wc.T1 != wc.T0 {
+				kit.Failf("send-immediate:"+k.Name, "%s: round %d: the peer takes everything, Send (deadline %v): done=%v %s after %v", k.Name, round, d, wc.Done(), kit.ErrName(wc.Err), wc.T1-wc.T0)
+			}
+			kit.Sleep(3 * d)
+			kit.Quiesce()
+			x.P.Hold(true)
+			c2, _ := blockSend(x, fmt.Sprintf("dl%d", round))
+			if c2 == nil {
+				break
+			}
+			kit.Sleep(d - time.Nanosecond)
+			kit.Quiesce()
+			if c2.Done() {
+				kit.Failf("send-deadline-early:"+k.Name, "%s: round %d (after an idle period of %v): Send with deadline %v returned %s after only %v", k.Name, round, 3*d, d, kit.ErrName(c2.Err), c2.T1-c2.T0)
+			}
+			kit.Sleep(time.Nanosecond)
+			kit.Quiesce()
+			if !c2.Done() || c2.Err != mangos.ErrSendTimeout || c2.T1-c2.T0 != d {
+				kit.Failf("send-deadline-result:"+k.Name, "%s: round %d (after an idle period of %v): Send with deadline %v: done=%v %s after %v, want ErrSendTimeout after exactly the deadline", k.Name, round, 3*d, d, c2.Done(), kit.ErrName(c2.Err), c2.T1-c2.T0)
+			}
+			kit.Count("send-timeout-exact-again-after-idle")
+		}
 	} else {
 		kit.Sleep(time.Hour)
 		kit.Quiesce()
